@@ -54,6 +54,9 @@ const OPS: &[(&str, u8)] = &[
     ("fn dN(x, x) {\nprint(x + 0)\n}\ndN(K, K)", 5),
     ("gN := fn (x, [x]) {\nprint(x + 0)\n}\ngN(K, [K])", 5),
     ("gN := fn (x, y) {\nprint(x + y)\n}\ngN(K, K)", 5),
+    ("gN := fn (x, x) {\n}\ngN(K, K)", 5),
+    ("gN := fn (_, x, x) {\n}\ngN(K, K, K)", 5),
+    ("fn dN(_, x, x) {\n}\ndN(K, K, K)", 5),
     ("{x, ..x} = {\"x\": K, \"z\": K}", 0),
     ("[x, ..x] = [K, K]", 0),
     ("[x, [x]] = [K, [K]]", 0),
@@ -156,7 +159,7 @@ impl Alphabet for Alpha {
 
 const NON_BINDABLE: [&str; 9] =
     ["null", "true", "5", "\"s\"", "a + b", "1 .. 2", "fn () {\n}", "f()", "$\"s\""];
-const POSITIONS: [&str; 9] = [
+const POSITIONS: [&str; 11] = [
     "@ := 1\n",
     "@ = 1\n",
     "@ += 1\n",
@@ -166,6 +169,8 @@ const POSITIONS: [&str; 9] = [
     "for @ in [1] {\nprint(\"body\")\n}\n",
     "fn g(@) {\nprint(\"body\")\n}\ng(1)\n",
     "g := fn (@) {\nprint(\"body\")\n}\ng(1)\n",
+    "g := fn (@) {\n}\ng(1)\n",
+    "fn g(_, @) {\n}\ng(1, 2)\n",
 ];
 
 impl Check for C20 {
